@@ -62,7 +62,9 @@ def tree(schema, defs):
         if 'enum' in schema:
             return {'k': 'intenum', 'values': [int(x) for x in schema['enum']], 'allow': True}
         if 'not' in schema:
-            return {'k': 'intenum', 'values': [int(x) for x in schema['not']['enum']], 'allow': False}
+            n = schema['not']
+            vals = n['enum'] if 'enum' in n else [n['const']]
+            return {'k': 'intenum', 'values': [int(x) for x in vals], 'allow': False}
         # without a recognised format typify's documented choice is i64 (or, for a
         # lone lower bound of 0/1, u64): outside i64 nothing is claimed here (C10's business)
         lo, hi = -2**63, 2**63 - 1
